@@ -12,7 +12,9 @@ THEOREMS = {"Proofs.C14": ["VerifModel.C14." + t for t in [
 TRUSTED_BASE = c01.TRUSTED_BASE + ["-c/-C option parsing is C13's subject; Data(clim=..., clim_type=...) is called directly"]
 ASSUMPTIONS = c01.ASSUMPTIONS
 RULE = ("data.clim: generated datasets of 1-3 scored inputs plus a climatology of arbitrary coverage/missingness (zeros for "
-        "-C), subtract and divide, all field combinations incl. a non-obs/fcst field, all axes; data.climx: -c K versus K as "
+        "-C), subtract and divide, all field combinations incl. the PIT, stored CDF / quantile columns, ensemble members and "
+        "other scores (never adjusted), a fifth with -obs FIELD / -fcst FIELD (the climatology's -fcst field is "
+        "subtracted), all axes; data.climx: -c K versus K as "
         "an additional input for mae/rmse/bias/stderror on axes no/leadtime/location (implementation-only metamorphic)")
 EXHAUSTIVE = {"quick": False, "thorough": False}
 LEVEL_TEXT = ("Lean theorems: the climatology adjustment subtracts (divides by) the climatology vector position by position for "
@@ -29,6 +31,8 @@ def gen_ops(tier, rng):
         ds = dg.gen_dataset(rng, n_inputs=rng.choice([1, 2, 3]), with_clim=True)
         if k % 5 == 4:
             ds.cfg["obsrange"] = (0.0, 2.0)          # -obsrange selects on the observed value, not on the anomaly
+        if k % 5 == 1:
+            ds = dg.add_field_options(ds, rng)       # -obs FIELD / -fcst FIELD: the climatology's -fcst field is used
         dims = dg.oracle_dims(ds)
         if dims is None:
             continue
